@@ -2,9 +2,9 @@
 # runs the quick checks of the properties anchored in the touched file against each behaviour-preserving refactoring;
 # any VIOLATION line here is a false alarm of the machinery
 export GOFLAGS=-mod=mod GOPROXY=off GOSUMDB=off GOTOOLCHAIN=local
-WT=/tmp/wt-eval
-declare -A PROPS=( [rr-explicit-unlock-copy-delete]="C01 C02 C09 C11 C20" [rebalancer-simplify-branches]="C02 C10 C09" [bucket-min-builtin-added-tokens]="C03 C13" [tokenlimiter-extract-bucketset-helper]="C03 C14 C09 C20" [connlimit-explicit-unlock-local-copy]="C04 C09 C14 C20" [cbreaker-switch-to-if-chain]="C05 C12 C18 C09 C20" [counter-hoist-invariant-early-break]="C17 C18 C09" [ttlmap-loop-conditions-early-return]="C14 C09" )
-for d in /verif/refactorings/*/; do
+WT=${WT:-/tmp/wt-eval}
+declare -A PROPS=( [rr-explicit-unlock-copy-delete]="C01 C02 C09 C11 C20" [rebalancer-simplify-branches]="C02 C10 C09" [bucket-min-builtin-added-tokens]="C03 C13" [tokenlimiter-extract-bucketset-helper]="C03 C14 C09 C20" [connlimit-explicit-unlock-local-copy]="C04 C09 C14 C20" [cbreaker-switch-to-if-chain]="C05 C12 C18 C09 C20" [counter-hoist-invariant-early-break]="C17 C18 C09" [ttlmap-loop-conditions-early-return]="C14 C09" [buffer-error-helper]="C06 C07 C15 C20" [threshold-predicates]="C07 C20" [fwd-extract-token-filter]="C08 C16" [rewrite-cut-switch]="C08" [source-switch-cut]="C19 C04 C03" [netutils-stdlib-guards]="C20 C02 C18" [handler-status-helper]="C16 C20 C04" [sticky-find-helper]="C11 C02" )
+for d in /verif/refactorings/*${1}*/; do
   name=$(basename $d); [ -f $d/patch.diff ] || continue
   cd $WT && git checkout -q --detach main 2>/dev/null; git checkout -q -- . && git clean -fdq
   git apply $d/patch.diff || { echo "REFACTOR $name: patch does not apply"; continue; }
